@@ -103,7 +103,12 @@ pub const TOKEN_BINDER_EXTEND_AMOUNT: u32 = 30 * DAY_IN_LEDGERS;
 pub const TOKEN_BINDER_TTL_THRESHOLD: u32 = TOKEN_BINDER_EXTEND_AMOUNT - DAY_IN_LEDGERS;
 
 /// Number of Token addresses in bucket
+#[cfg(not(stellar_verif))]
 pub const BUCKET_SIZE: u32 = 100;
+// Verification hook (off by default): two-element buckets keep the bucket-crossing logic within reach of
+// bounded model checking. Enabled only with `RUSTFLAGS="--cfg stellar_verif"`.
+#[cfg(stellar_verif)]
+pub const BUCKET_SIZE: u32 = 2;
 /// Max. number of buckets
 pub const MAX_BUCKETS: u32 = 100;
 /// Max. number of Token addresses
